@@ -16,8 +16,9 @@ in-sample seasonal mean raised on a window cut by the start of the series; in-sa
 import SkVerif.Lemmas.Naive
 import SkVerif.Lemmas.NaiveTop
 import SkVerif.Lemmas.Trend
+import SkVerif.Lemmas.History
 namespace SkVerif.C11
-open SkVerif SkVerif.Naive SkVerif.Lem.Naive
+open SkVerif SkVerif.Naive SkVerif.Lem.Naive SkVerif.History
 open SkVerif.Spec.Naive (window windowTimes meanOf sameSeason NormalEqs sse powers)
 
 /-- strictly increasing (every constructed horizon is: C02 `mk_sorted_nodup`) -/
@@ -464,5 +465,63 @@ theorem adapter_selects_requested_steps (sm : Int → Val) (n : Nat) (hn : 1 ≤
 
 example : Trend.adapterPredict (fun i => some ((10 * i : Int) : Rat)) 4 5 (.ints [-1, 2, 5]) true
     = .ok [(7, some 20), (10, some 50), (13, some 80)] := by decide +kernel
+
+/-! ## object history: re-parameterised and re-fitted objects
+
+`predict` has no state output in the model (Model/History.lean): asking twice gives the same answer and nothing the caller
+holds is written; the harness checks both on the real code for every naive / trend case (flags `again`, `kept`). -/
+
+/-- Object history: whatever an estimator object has been through before (any parameters, any fitted attributes, a
+stale `sp_`), after `set_params(p)` and a successful `fit(y)` its `predict(fh)` is exactly what a newly constructed
+`NaiveForecaster(p).fit(y).predict(fh)` returns — hence the textbook value for the NEW parameters and data. -/
+theorem refit_forgets_history (o : NObj) (st : Strategy) (sp : Int) (wl : Option Int) (y : List Val) (origin : Int)
+    (o' : NObj) (h : (o.setParams st sp wl).fit y origin = .ok o') (raw : FH.Raw) (rel : Bool) :
+    o'.predict raw rel = fitPredict st sp wl y origin raw rel :=
+  Lem.History.refit_predict o st sp wl y origin o' h raw rel
+
+/-- … and the whole history `construct(p0); fit(y0); set_params(p); fit(y); predict(fh)` equals the fresh object's
+answer, errors included (a rejected first fit, a rejected second fit). -/
+theorem naive_history_eq_fresh (st0 : Strategy) (sp0 : Int) (wl0 : Option Int) (y0 : List Val) (o0 : Int)
+    (st : Strategy) (sp : Int) (wl : Option Int) (y : List Val) (origin : Int) (raw : FH.Raw) (rel : Bool) :
+    naiveHistory st0 sp0 wl0 y0 o0 st sp wl y origin raw rel = fitPredict st sp wl y origin raw rel := by
+  unfold naiveHistory
+  generalize (NObj.new st0 sp0 wl0).fitOrKeep y0 o0 = b
+  cases hf : (b.setParams st sp wl).fit y origin with
+  | ok c => simp only; exact Lem.History.refit_predict b st sp wl y origin c hf raw rel
+  | error e =>
+    unfold NObj.fit NObj.setParams at hf
+    simp only at hf
+    cases hw : fitWindow st sp wl y.length with
+    | ok w => simp [hw] at hf
+    | error e' =>
+      simp only [hw, Except.error.injEq] at hf
+      subst hf
+      simp [fitPredict, hw, bind, Except.bind]
+
+example : naiveHistory .mean 3 (some 6) [some 1, some 2, some 3, some 4, some 5, some 6, some 7] 5
+    .drift 1 none [some 0, some 1, some 4, some 9, some 16] 0 (.ints [-1, 1]) true = .ok [(3, some 6), (5, some 20)] := by
+  decide +kernel
+
+/-- the same for `PolynomialTrendForecaster`: the pipeline is re-assembled from the current parameters by every fit -/
+theorem trend_history_eq_fresh (d0 : Nat) (b0 : Bool) (y0 : List Val) (o0 : Int) (d : Nat) (b : Bool) (y : List Val)
+    (origin : Int) (raw : FH.Raw) (rel : Bool) :
+    (match trendHistory d0 b0 y0 o0 d b y origin with
+     | .ok o => o.predict raw rel
+     | .error e => .error e) = Trend.fitPredict d b y origin raw rel := by
+  unfold trendHistory
+  generalize (TObj.new d0 b0).fitOrKeep y0 o0 = a
+  unfold TObj.fit TObj.setParams Trend.fitPredict
+  simp only
+  by_cases hl : y.length = 0
+  · simp [hl, bind, Except.bind, throw, throwThe, MonadExceptOf.throw]
+  · simp only [hl, ↓reduceIte]
+    cases hc : Trend.checkPoly d b with
+    | error e => simp [bind, Except.bind]
+    | ok u =>
+      by_cases hn : y.any (·.isNone) = true
+      · simp [hn, bind, Except.bind, throw, throwThe, MonadExceptOf.throw]
+      · simp only [hn, Bool.false_eq_true, ↓reduceIte, TObj.predict]
+        unfold Trend.fitPredict
+        simp [hl, hc, hn, bind, Except.bind]
 
 end SkVerif.C11
